@@ -116,7 +116,13 @@ def _eq_item(item1, item2):
         return item2 is None
     if item2 is None:
         return False
-    return item1 == item2
+    try:
+        return item1 == item2
+    except TypeError:
+        # The __eq__() of CIM objects raises TypeError for objects of another
+        # kind (e.g. an embedded instance vs. a string value): not comparable
+        # means not equal, as in NocaseDict.__eq__().
+        return False
 
 
 def _eq_dict(dict1, dict2):
